@@ -34,8 +34,6 @@ def main():
         rc, out = sh("git -C /repo apply %s" % os.path.join(d, "patch.diff"))
         if rc != 0:
             # the lines the change touches were altered by a later fix: commit in /repo: the seed has to be re-expressed (not silently skipped)
-            rc3, out3 = sh("git -C /repo apply -3 %s" % os.path.join(d, "patch.diff"))
-            sh("git -C /repo checkout -- . ; git -C /repo reset -q")
             summary[name] = dict(property=meta["property"], confirmed=meta.get("confirmed"), caught_by=[], exits={}, apply_failed=out.strip()[:200])
             print(name, "PATCH DOES NOT APPLY", out.strip()[:160])
             continue
@@ -54,6 +52,8 @@ def main():
         json.dump(meta, open(os.path.join(d, "meta.json"), "w"), indent=1)
         summary[name] = dict(property=meta["property"], confirmed=meta.get("confirmed"), caught_by=meta["caught_by"],
                              exits={c: v["exit"] for c, v in meta["checks"].items()})
+        if meta.get("neutralised_by_fix"):
+            summary[name]["neutralised_by_fix"] = meta["neutralised_by_fix"]
         print(name, summary[name])
     if not sys.argv[1:]:
         json.dump(summary, open(os.path.join(root, "SUMMARY.json"), "w"), indent=1)
